@@ -6,7 +6,7 @@ From Osmo Require Import Base.DecModel CL.CLPool CL.CLSwap CL.CLStep CLR.Accum C
   C08.Proj C08.Telescope C08.View C08.Static C08.Ops C08.OpInside C08.SwapTrace C08.Crux C08.Check
   C08.Claim C08.Conseq C08.Frame C08.Never C08.SwapWf C08.Dom C08.StaticOk C08.Final
   C07.Base C08.Paid C08.PaidOps C08.PaidSwap C08.PaidHist C08.Modify C08.Twins
-  C08.IncAcc C08.Inc C08.IncList C08.IncStage C08.IncOps C08.IncSwap C08.IncHist.
+  C08.IncAcc C08.Inc C08.IncList C08.IncStage C08.IncOps C08.IncSwap C08.IncHist C08.UpNever.
 Open Scope Z_scope.
 
 (* ---- the reward model extends the shared pool model conservatively ---- *)
@@ -411,3 +411,22 @@ Proof.
   - rewrite E. intros p [H|[H|[]]]; subst p; vm_compute; discriminate.
   - split; [vm_compute; reflexivity|]. rewrite E. split; [reflexivity|]. split; split; vm_compute; try reflexivity; discriminate.
 Qed.
+
+(* ==== never in range => no incentives (C08/UpNever.v) ==== *)
+(* the uptime-accumulator records of a position are written only by a withdrawal from / add to / incentive collection on that position *)
+Theorem C08_uptime_record_frame : forall ops rs id, RInv rs -> hist_untouchedI ops id = true -> id < s_next_id (r_base rs) ->
+  forall u, acc_get (acc_u u (r_rw (rrun rs ops))) id = acc_get (acc_u u (r_rw rs)) id.
+Proof. exact run_urec_frame. Qed.
+Print Assumptions C08_uptime_record_frame.
+
+(* NEVER_IN_RANGE_EARNS_ZERO for incentives: records that claim nothing (nothing unclaimed, snapshot = growth inside), the position left
+   alone, the current tick never inside [l, h) - at any operation, at any step of any swap - and outside at the end: the claim query
+   reports nothing collected and nothing forfeited, whatever incentives were created and however much time passed *)
+Theorem C08_never_in_range_no_incentives : forall ops rs id l h c f, RInv rs -> length (rw_up (r_rw rs)) = NU ->
+  live_through rs ops id l h -> hist_outside rs ops l h -> hist_untouchedI ops id = true -> id < s_next_id (r_base rs) ->
+  zero_urec rs id l h ->
+  let rs' := rrun rs ops in
+  length (rw_up (r_rw rs')) = NU -> in_rng l h (cur_tick rs') = false ->
+  claimable_incentives rs' id = Some (c, f) -> c = (0, 0) /\ f = (0, 0).
+Proof. exact never_in_range_no_incentives. Qed.
+Print Assumptions C08_never_in_range_no_incentives.
